@@ -92,6 +92,8 @@ def result_dtype(dts):
 
 
 def cast_scalar(v, dt):
+    if isinstance(v, S.SumT):
+        return v
     if dt == 'complex':
         return S.cx(v)
     if dt == 'float':
@@ -491,6 +493,10 @@ def view_inverse(ctx, view, b):
         n = view.shape[i]
         if S.is_z3(step):
             raise Unsupported('symbolic view step')
+        if step == 1 and S.is_concrete(ax.start) and S.is_zero(ax.start) and \
+                (n is view.cell.shape[ax.base] or same_dim(ctx, n, view.cell.shape[ax.base])):
+            vidx[i] = d          # the whole base axis: every valid base index is in the view
+            continue
         if step == 1:
             cond = S.and_(cond, S.ge(d, 0), S.lt(d, n))
             vidx[i] = d
